@@ -1,7 +1,7 @@
 (* Proofs about Model/FMap.v (property C05): FunctorMap and mul_p_map return map(f, data) in input order, for every
    configuration, history of calls and schedule; they terminate. *)
 From Coq Require Import ZArith List Bool Arith Lia Permutation Sorted.
-From WPU Require Import Common.Val Common.ListX Common.Perm Model.Pool Model.FMap Proofs.GenericP Proofs.PoolP Proofs.PoolLifeP.
+From WPU Require Import Common.Val Common.ListX Common.Perm Model.Pool Model.FMap Proofs.GenericP Proofs.PoolP Proofs.PoolLifeP Proofs.PoolLiveP.
 Import ListNotations.
 Open Scope nat_scope.
 
@@ -367,15 +367,15 @@ Proof.
         { unfold mentries. rewrite !app_length. lia. }
         assert (Z0 : q_entries (ms_workq s) ++ mheld (ms_procs s) ++ q_entries (ms_resq s) = []).
         { destruct (q_entries (ms_workq s) ++ mheld (ms_procs s) ++ q_entries (ms_resq s)); [reflexivity | simpl in Hl; lia]. }
-        assert (Eb : mentries s = ms_buffer s).
-        { unfold mentries. rewrite !app_assoc. rewrite <- !app_assoc in Z0. rewrite !app_assoc in Z0. rewrite Z0. reflexivity. }
+        apply app_eq_nil in Z0. destruct Z0 as [Z1 Z0]. apply app_eq_nil in Z0. destruct Z0 as [Z2 Z3].
+        assert (Eb : mentries s = ms_buffer s) by (unfold mentries; rewrite Z1, Z2, Z3; reflexivity).
         assert (Hres : concat (map snd (sort_by_idx (ms_buffer s))) = ms_data s).
         { rewrite (sort_by_idx_spec (mchunk s) _ (ms_cnt s)).
           - rewrite concat_mchunks. rewrite <- (firstn_skipn (ms_cnt s * ms_chunk s) (ms_data s)) at 2. rewrite Hsk, app_nil_r. reflexivity.
           - rewrite <- Eb. exact P1.
           - rewrite <- Eb. apply (mc_payload _ _ Ic). }
         constructor; simpl; auto.
-        -- unfold mentries; simpl. rewrite app_nil_r. rewrite <- !app_assoc in Z0. exact Z0.
+        -- unfold mentries; simpl. rewrite Z1, Z2, Z3. reflexivity.
         -- destruct Is as (done & Hsp & Hdn). exists (done ++ [(ms_data s, ms_chunk s)]). split.
            ++ rewrite Hsp. rewrite <- app_assoc. reflexivity.
            ++ rewrite map_app, Hdn, Hres. reflexivity.
@@ -400,4 +400,392 @@ Proof.
   - eapply minv_start; eauto.
   - eapply minv_next; eauto.
   - eapply minv_put; eauto.
+Qed.
+
+(* once the pool is being left (FunctorMap) / everything has been mapped (mul_p_map), no call is pending *)
+Definition exitish (cfg : mcfg) (m : mmpc) : bool :=
+  match m with MmDone => true | MmNones _ | MmJoin _ => m_kind cfg | _ => false end.
+Ltac mstep_cases H :=
+  unfold mstep in H;
+  repeat match type of H with
+         | context [match ?x with _ => _ end] => destruct x eqn:?; try discriminate
+         end.
+Lemma absorb_main kind s i xs : ms_main (absorb kind s i xs) = ms_main s /\ ms_todo (absorb kind s i xs) = ms_todo s.
+Proof. destruct (absorb_frame kind s i xs) as (F1 & F2 & _). auto. Qed.
+Lemma xinv_step cfg s e s' : (exitish cfg (ms_main s) = true -> ms_todo s = []) -> mstep cfg s e = Some s' ->
+  (exitish cfg (ms_main s') = true -> ms_todo s' = []).
+Proof.
+  intros X H. destruct e; mstep_cases H; injection H as <-; simpl;
+    repeat match goal with |- context [absorb ?k ?st ?i ?xs] => destruct (absorb_main k st i xs) as [-> ->] end; simpl;
+    unfold exitish, first_pc, after_loop in *; simpl in *; repeat match goal with Hm : ms_main s = _ |- _ => rewrite Hm in X end; simpl in *;
+    repeat match goal with Hk : m_kind cfg = _ |- _ => rewrite Hk in * end; simpl in *; auto; try discriminate; try congruence;
+    try (match goal with |- context [match ?d with [] => _ | _ :: _ => _ end] => destruct d end; simpl; discriminate);
+    try (repeat match goal with Hm : ms_main s = _ |- _ => rewrite Hm end; simpl; discriminate);
+    try (destruct (m_kind cfg); simpl; discriminate).
+Qed.
+
+Lemma minv_init cfg hist : Forall mact_ok hist -> MInv cfg hist (minit cfg hist).
+Proof.
+  intros Hh. unfold minit. constructor; simpl; auto.
+  - destruct (m_kind cfg) eqn:K; simpl; rewrite ?K; simpl; unfold mentries; simpl; [rewrite mheld_repeat_new|]; reflexivity.
+  - exists []. destruct (m_kind cfg) eqn:K; simpl; rewrite ?K; simpl; auto.
+Qed.
+
+Theorem fmap_results cfg hist sched : Forall mact_ok hist ->
+  let s := mrun cfg (minit cfg hist) sched in
+  ms_err s = false
+  /\ (exists done rest, hist = done ++ rest /\ ms_done s = map fst done)
+  /\ (ms_main s = MmDone -> ms_done s = map fst hist).
+Proof.
+  intros Hh s. unfold mrun in s.
+  assert (G : forall sched s, MInv cfg hist s /\ (exitish cfg (ms_main s) = true -> ms_todo s = []) ->
+     let s' := fold_left (fun s e => match mstep cfg s e with Some s' => s' | None => s end) sched s in
+     MInv cfg hist s' /\ (exitish cfg (ms_main s') = true -> ms_todo s' = [])).
+  { clear s sched. induction sched as [|e r IH]; intros s [I X]; simpl; [auto|]. apply IH.
+    destruct (mstep cfg s e) as [s'|] eqn:E; [|auto]. split; [eapply minv_step; eauto | eapply xinv_step; eauto]. }
+  destruct (G sched (minit cfg hist)) as [[Ie _ _ (done & Hsp & Hdn)] X].
+  { split; [apply minv_init; auto|]. unfold minit, exitish. simpl. destruct (m_kind cfg); discriminate. }
+  fold s in Ie, Hsp, Hdn, X. split; [exact Ie|]. split.
+  - eexists; eexists; split; [exact Hsp | exact Hdn].
+  - intros M. rewrite M in Hsp, X. unfold active in Hsp. simpl in Hsp, X. rewrite (X eq_refl), app_nil_r in Hsp. rewrite Hsp. exact Hdn.
+Qed.
+
+(* ================================================================== liveness: invariants *)
+Definition mcfg_ok (cfg : mcfg) : Prop := 1 <= m_workers cfg /\ (forall c, m_cap cfg = Some c -> 1 <= c).
+Definition alive1 (w : mwpc) : nat := if mdead w then 0 else 1.
+Definition alive (ps : list mwpc) : nat := list_sum (map alive1 ps).
+Definition is_chunk (it : qitem) : Prop := match it with QChunk _ _ => True | QNone => False end.
+(* stop orders that are still going to be put *)
+Definition pend (cfg : mcfg) (m : mmpc) : nat :=
+  match m with
+  | MmNones n => n
+  | MmJoin _ | MmDone => 0
+  | MmFinal | MmIdle => if m_kind cfg then m_workers cfg else 0
+  | _ => m_workers cfg
+  end.
+
+Lemma alive_set_nth ps k w w' : nth_error ps k = Some w -> alive (set_nth k w' ps) + alive1 w = alive ps + alive1 w'.
+Proof.
+  unfold alive. revert k; induction ps as [|p ps IH]; intros [|k] H; simpl in *; try discriminate.
+  - injection H as ->. lia.
+  - specialize (IH k H). lia.
+Qed.
+Lemma alive_le ps : alive ps <= length ps.
+Proof. unfold alive. induction ps as [|p ps IH]; simpl; auto. unfold alive1 at 1. destruct (mdead p); lia. Qed.
+Lemma alive_full ps : alive ps = length ps -> forall j w, nth_error ps j = Some w -> mdead w = false.
+Proof.
+  unfold alive. induction ps as [|p ps IH]; intros H [|j] w Hj; simpl in *; try discriminate.
+  - injection Hj as ->. pose proof (alive_le ps). unfold alive in H0. unfold alive1 in H at 1. destruct (mdead w); auto. lia.
+  - apply (IH) with (j := j); auto. pose proof (alive_le ps). unfold alive in H0. unfold alive1 in H at 1. destruct (mdead p); lia.
+Qed.
+Lemma alive_pos ps : 1 <= alive ps -> exists k w, nth_error ps k = Some w /\ mdead w = false.
+Proof.
+  unfold alive. induction ps as [|p ps IH]; simpl; [lia|]. unfold alive1 at 1. destruct (mdead p) eqn:D.
+  - intros H. destruct (IH H) as (k & w & Hk & Hd). exists (S k), w. auto.
+  - intros _. exists 0, p. auto.
+Qed.
+Lemma alive_repeat_new n : alive (repeat MWNew n) = n.
+Proof. unfold alive. induction n; simpl; auto. Qed.
+Lemma alive_ge1 ps k w : nth_error ps k = Some w -> mdead w = false -> 1 <= alive ps.
+Proof.
+  unfold alive. revert k; induction ps as [|p ps IH]; intros [|k] H D; simpl in *; try discriminate.
+  - injection H as ->. unfold alive1 at 1. rewrite D. lia.
+  - specialize (IH k H D). lia.
+Qed.
+
+Definition new_ok (m : mmpc) (ps : list mwpc) : Prop :=
+  match m with
+  | MmEnter k => k < length ps /\ forall j w, nth_error ps j = Some w -> (k <= j <-> w = MWNew)
+  | _ => forall j w, nth_error ps j = Some w -> w <> MWNew end.
+Definition joined_ok (cfg : mcfg) (m : mmpc) (ps : list mwpc) : Prop :=
+  match m with
+  | MmJoin k => forall j w, j < k -> nth_error ps j = Some w -> w = MWDead
+  | MmDone => m_kind cfg = true -> forall j w, nth_error ps j = Some w -> w = MWDead
+  | MmIdle => m_kind cfg = false -> forall j w, nth_error ps j = Some w -> w = MWDead
+  | _ => True end.
+Lemma new_set_nth m ps k w w' : new_ok m ps -> nth_error ps k = Some w -> w <> MWNew -> w' <> MWNew -> new_ok m (set_nth k w' ps).
+Proof.
+  unfold new_ok. intros H N Hw Hw'. destruct m.
+  1: { destruct H as [Hk H]. rewrite set_nth_length. split; auto. intros j y Hy. apply nth_set_nth_cases in Hy.
+       destruct Hy as [[-> ->]|[Hne Hy]]; [|apply H; auto]. specialize (H k w N). split; intros Hx; [exfalso; apply Hw; apply H; exact Hx | contradiction]. }
+  all: intros j y Hy; apply nth_set_nth_cases in Hy; destruct Hy as [[-> ->]|[Hne Hy]]; [exact Hw' | eapply H; eauto].
+Qed.
+Lemma joined_set_nth cfg m ps k w w' : joined_ok cfg m ps -> nth_error ps k = Some w -> (w <> MWDead \/ w' = MWDead) -> joined_ok cfg m (set_nth k w' ps).
+Proof.
+  unfold joined_ok. intros H N Hw. destruct m; auto.
+  - intros K j y Hy. apply nth_set_nth_cases in Hy. destruct Hy as [[-> ->]|[Hne Hy]]; [|eapply H; eauto].
+    destruct Hw as [Hw|Hw]; auto. exfalso. apply Hw. eapply H; eauto.
+  - intros j y Hj Hy. apply nth_set_nth_cases in Hy. destruct Hy as [[-> ->]|[Hne Hy]]; [|eapply H; eauto].
+    destruct Hw as [Hw|Hw]; auto. exfalso. apply Hw. eapply H; eauto.
+  - intros K j y Hy. apply nth_set_nth_cases in Hy. destruct Hy as [[-> ->]|[Hne Hy]]; [|eapply H; eauto].
+    destruct Hw as [Hw|Hw]; auto. exfalso. apply Hw. eapply H; eauto.
+Qed.
+
+Record MLive (cfg : mcfg) (s : mstate) : Prop := {
+  ml_len : length (ms_procs s) = m_workers cfg \/ (m_kind cfg = false /\ ms_procs s = [] /\ (ms_main s = MmIdle \/ ms_main s = MmDone));
+  ml_new : new_ok (ms_main s) (ms_procs s);
+  ml_join : forall k, ms_main s = MmJoin k -> k < length (ms_procs s);
+  ml_nones : forall n, ms_main s = MmNones n -> 1 <= n;
+  ml_workq : exists cs m, ms_workq s = cs ++ repeat QNone m /\ Forall is_chunk cs /\ alive (ms_procs s) = m + pend cfg (ms_main s)
+                          /\ (cs <> [] -> forall j w, nth_error (ms_procs s) j = Some w -> mdead w = false);
+  ml_resq : Forall is_chunk (ms_resq s);
+  ml_bufw : m_kind cfg = true -> active cfg (ms_main s) = true -> buf_get (ms_buffer s) (ms_wait s) = None;
+  ml_joined : joined_ok cfg (ms_main s) (ms_procs s);
+}.
+
+Lemma alive_all_dead ps : (forall j w, nth_error ps j = Some w -> w = MWDead) -> alive ps = 0.
+Proof.
+  unfold alive. induction ps as [|p ps IH]; intros H; simpl; auto. rewrite (H 0 p eq_refl). simpl. apply IH.
+  intros j w Hj. apply (H (S j) w Hj).
+Qed.
+Lemma repeat_none_snoc m : repeat QNone m ++ [QNone] = repeat QNone (S m).
+Proof. symmetry. apply repeat_cons. Qed.
+Lemma chunks_head cs m i xs q : cs ++ repeat QNone m = QChunk i xs :: q -> exists cs', cs = QChunk i xs :: cs' /\ q = cs' ++ repeat QNone m.
+Proof.
+  destruct cs as [|c cs']; simpl; intros H.
+  - destruct m; simpl in H; discriminate.
+  - injection H as -> <-. eauto.
+Qed.
+Lemma nones_head cs m q : Forall is_chunk cs -> cs ++ repeat QNone m = QNone :: q -> cs = [] /\ exists m', m = S m' /\ q = repeat QNone m'.
+Proof.
+  intros F H. destruct cs as [|c cs']; simpl in H.
+  - split; auto. destruct m; simpl in H; [discriminate|]. injection H as <-. eauto.
+  - injection H as -> _. inversion F; subst. contradiction.
+Qed.
+
+
+Lemma mlive_start cfg hist s s' : mcfg_ok cfg -> MInv cfg hist s -> MLive cfg s -> mstep cfg s MStart = Some s' -> MLive cfg s'.
+Proof.
+  intros [Ow Oc] MI [Ll Ln Lj Lo (cs & m & Hq & Hcs & Hal & Hf) Lr Lb Ld] H. simpl in H.
+  destruct (ms_main s) eqn:M; try discriminate. destruct (nth_error (ms_procs s) k) as [[| | |]|] eqn:N; try discriminate.
+  injection H as <-. unfold new_ok in Ln. destruct Ln as [Hk Ln]. rewrite set_nth_length.
+  assert (Al : alive (set_nth k MWIdle (ms_procs s)) = alive (ms_procs s)).
+  { pose proof (alive_set_nth _ k MWNew MWIdle N) as A. unfold alive1 in A; simpl in A. lia. }
+  assert (Len : length (ms_procs s) = m_workers cfg) by (destruct Ll as [L|(_ & _ & [L|L])]; [exact L | discriminate | discriminate]).
+  assert (NotNew : (S k <? length (ms_procs s)) = false ->
+            forall j w, nth_error (set_nth k MWIdle (ms_procs s)) j = Some w -> w <> MWNew).
+  { intros Hb j w Hj. apply Nat.ltb_ge in Hb. apply nth_set_nth_cases in Hj. destruct Hj as [[-> ->]|[Hne Hj]]; [discriminate|].
+    intros ->. assert (j < length (ms_procs s)) by (apply nth_error_Some; congruence).
+    assert (k <= j) by (apply (Ln j MWNew Hj); reflexivity). lia. }
+  assert (Dead : forall j w, nth_error (set_nth k MWIdle (ms_procs s)) j = Some w -> mdead w = true -> exists w0, nth_error (ms_procs s) j = Some w0 /\ mdead w0 = true).
+  { intros j w Hj Hd. apply nth_set_nth_cases in Hj. destruct Hj as [[-> ->]|[Hne Hj]]; [discriminate | eauto]. }
+  assert (F' : cs <> [] -> forall j w, nth_error (set_nth k MWIdle (ms_procs s)) j = Some w -> mdead w = false).
+  { intros Hc j w Hj. destruct (mdead w) eqn:D; auto. destruct (Dead j w Hj D) as (w0 & H0 & D0). rewrite (Hf Hc j w0 H0) in D0. discriminate. }
+  destruct (S k <? length (ms_procs s)) eqn:Hb.
+  - apply Nat.ltb_lt in Hb. constructor; unfold new_ok, joined_ok; simpl; rewrite ?set_nth_length.
+    + auto.
+    + split; auto. intros j w Hj. apply nth_set_nth_cases in Hj. destruct Hj as [[-> ->]|[Hne Hj]]; [split; [lia | discriminate]|].
+      specialize (Ln j w Hj). split; intros Hx; [apply Ln; lia | apply Ln in Hx; lia].
+    + discriminate.
+    + discriminate.
+    + exists cs, m. repeat split; auto. rewrite Al. exact Hal.
+    + exact Lr.
+    + intros K A. unfold active in A. rewrite K in A. discriminate.
+    + exact Logic.I.
+  - destruct (m_kind cfg) eqn:K.
+    + constructor; unfold new_ok, joined_ok; simpl; rewrite ?set_nth_length.
+      * auto.
+      * apply NotNew; auto.
+      * discriminate.
+      * discriminate.
+      * exists cs, m. repeat split; auto. rewrite Al, Hal. simpl. rewrite K. reflexivity.
+      * exact Lr.
+      * intros _ A. discriminate.
+      * intros K'. congruence.
+    + assert (Pe : pend cfg (first_pc cfg (ms_data s)) = m_workers cfg) by (unfold first_pc, after_loop; rewrite K; destruct (ms_data s); reflexivity).
+      constructor; unfold new_ok, joined_ok; simpl; rewrite ?set_nth_length.
+      * auto.
+      * unfold first_pc, after_loop. rewrite K. destruct (ms_data s); apply NotNew; auto.
+      * unfold first_pc, after_loop. rewrite K. destruct (ms_data s); intros k0 E; discriminate.
+      * unfold first_pc, after_loop. rewrite K. destruct (ms_data s); intros n E; [injection E as <-; exact Ow | discriminate].
+      * exists cs, m. repeat split; auto. rewrite Al, Hal, Pe. reflexivity.
+      * exact Lr.
+      * intros K'. congruence.
+      * unfold first_pc, after_loop. rewrite K. destruct (ms_data s); exact Logic.I.
+Qed.
+
+Lemma mlive_set_main cfg s m' : MLive cfg s ->
+  length (ms_procs s) = m_workers cfg ->
+  (forall k, m' <> MmEnter k) -> (forall k, ms_main s <> MmEnter k) ->
+  (forall k, m' = MmJoin k -> k < length (ms_procs s)) ->
+  (forall n, m' = MmNones n -> 1 <= n) ->
+  pend cfg m' = pend cfg (ms_main s) ->
+  (m_kind cfg = true -> active cfg m' = true -> buf_get (ms_buffer s) (ms_wait s) = None) ->
+  joined_ok cfg m' (ms_procs s) ->
+  MLive cfg (set_main s m').
+Proof.
+  intros [Ll Ln Lj Lo (cs & m & Hq & Hcs & Hal & Hf) Lr Lb Ld] Hlen H1 H2 H3 H4 H5 H6 H7. unfold new_ok, joined_ok in *. constructor; unfold new_ok, joined_ok; simpl.
+  - left. exact Hlen.
+  - assert (G : forall j w, nth_error (ms_procs s) j = Some w -> w <> MWNew).
+    { destruct (ms_main s) eqn:M; try exact Ln. exfalso. eapply H2; eauto. }
+    destruct m'; try exact G. exfalso. eapply H1; eauto.
+  - exact H3.
+  - exact H4.
+  - exists cs, m. rewrite H5. auto.
+  - exact Lr.
+  - exact H6.
+  - exact H7.
+Qed.
+
+Lemma absorb_live cfg s q i xs : MLive cfg s -> ms_err s = false -> active cfg (ms_main s) = true ->
+  (forall k, ms_main s <> MmEnter k) -> ms_resq s = QChunk i xs :: q ->
+  MLive cfg (absorb (m_kind cfg) (set_resq s q) i xs).
+Proof.
+  intros [Ll Ln Lj Lo Lw Lr Lb Ld] He Ha Hne Hq.
+  destruct (absorb_frame (m_kind cfg) (set_resq s q) i xs) as (F1 & F2 & F3 & F4 & F5 & F6 & F7 & F8 & F9). simpl in *.
+  assert (Lr' : Forall is_chunk q) by (rewrite Hq in Lr; inversion Lr; auto).
+  constructor; rewrite ?F2, ?F7, ?F8, ?F9; auto.
+  intros K _. specialize (Lb K Ha). unfold absorb. rewrite K. unfold set_resq. cbn [ms_buffer ms_wait ms_finished ms_yield ms_err].
+    destruct (process_ordered (ms_buffer s, ms_wait s, ms_finished s, ms_yield s, ms_err s) (i, xs)) as [[[[b w] fin] ys] er] eqn:P. simpl.
+    apply (process_ordered_bufw [(i, xs)] _ _ _ _ _ _ _ _ _ _ P Lb).
+Qed.
+
+
+
+Lemma nth_error_repeat {A} (a : A) n j w : nth_error (repeat a n) j = Some w -> w = a.
+Proof. intros H. apply nth_error_In in H. apply repeat_spec in H. exact H. Qed.
+
+Lemma mlive_len cfg s : MLive cfg s -> ms_main s <> MmIdle -> ms_main s <> MmDone -> length (ms_procs s) = m_workers cfg.
+Proof. intros L H1 H2. destruct (ml_len _ _ L) as [?|(_ & _ & [?|?])]; [assumption | contradiction | contradiction]. Qed.
+
+Lemma mlive_rest cfg hist s e s' : mcfg_ok cfg -> MInv cfg hist s -> MLive cfg s -> mstep cfg s e = Some s' ->
+  match e with MStart => False | _ => True end -> MLive cfg s'.
+Proof.
+  intros [Ow Oc] MI L H He. destruct e; try contradiction; clear He; simpl in H.
+  - (* MNext *)
+    destruct (ms_main s) eqn:M; try discriminate.
+    destruct L as [Ll Ln Lj Lo (cs & m & Hq & Hcs & Hal & Hf) Lr Lb Ld]. rewrite M in *.
+    pose proof (mi_core _ _ _ MI) as Ic. rewrite M in Ic. unfold active in Ic. apply entries_nil_mparts in Ic. destruct Ic as (Q1 & Q2 & Q3 & Q4).
+    assert (Hcs0 : cs = []).
+    { rewrite Hq, q_entries_app in Q1. apply app_eq_nil in Q1. destruct Q1 as [Q1 _]. destruct cs as [|[|] ?]; auto; try discriminate.
+      inversion Hcs; subst; contradiction. }
+    subst cs. simpl in Hq. unfold new_ok, joined_ok in Ln, Ld.
+    destruct (ms_todo s) as [|[d c] rest] eqn:T.
+    + injection H as <-. destruct (m_kind cfg) eqn:K.
+      * assert (Len : length (ms_procs s) = m_workers cfg) by (destruct Ll as [?|(? & _)]; [assumption | discriminate]).
+        constructor; unfold new_ok, joined_ok; simpl; rewrite ?K; auto; try discriminate;
+          first [ solve [intros n E; injection E as <-; exact Ow]
+                | solve [exists [], m; simpl in *; rewrite K in Hal; auto]
+                | solve [unfold active; rewrite K; discriminate] ].
+      * constructor; unfold new_ok, joined_ok; simpl; rewrite ?K; auto; try discriminate;
+          first [ solve [destruct Ll as [?|(_ & P & _)]; [left; assumption | right; auto]]
+                | solve [exists [], m; simpl in *; rewrite K in Hal; auto] ].
+    + destruct (m_kind cfg) eqn:K; injection H as <-.
+      * assert (Len : length (ms_procs s) = m_workers cfg) by (destruct Ll as [?|(? & _)]; [assumption | discriminate]).
+        assert (Pe : pend cfg (first_pc cfg d) = m_workers cfg) by (unfold first_pc, after_loop; rewrite K; destruct d; simpl; rewrite ?K; reflexivity).
+        constructor; unfold new_ok, joined_ok; simpl; auto;
+          first [ solve [exists [], m; simpl in *; rewrite K in Hal; rewrite Pe; auto]
+                | solve [unfold first_pc, after_loop; rewrite K; destruct d; first [exact Ln | discriminate | exact Logic.I]] ].
+      * assert (Hm0 : m = 0).
+        { simpl in Hal. rewrite K in Hal. rewrite (alive_all_dead (ms_procs s)) in Hal; [lia|]. apply Ld. reflexivity. }
+        subst m. constructor; unfold new_ok, joined_ok; simpl; auto; try discriminate;
+          first [ solve [left; apply repeat_length]
+                | solve [rewrite repeat_length; split; [exact Ow|]; intros j w Hj; apply nth_error_repeat in Hj; subst w; split; auto; lia]
+                | solve [exists [], 0; simpl; rewrite alive_repeat_new; repeat split; auto; contradiction]
+                | solve [intros K'; congruence] ].
+  - (* MPut *)
+    destruct (ms_main s) as [| |i rest| | | | |] eqn:M; try discriminate. destruct rest as [|x r]; try discriminate.
+    destruct (full _ _); try discriminate. injection H as <-.
+    assert (Len : length (ms_procs s) = m_workers cfg) by (apply mlive_len; auto; rewrite M; discriminate).
+    destruct L as [Ll Ln Lj Lo (cs & m & Hq & Hcs & Hal & Hf) Lr Lb Ld]. rewrite M in *. simpl in Hal.
+    assert (Hm0 : m = 0) by (pose proof (alive_le (ms_procs s)); lia). subst m. simpl in Hq. rewrite app_nil_r in Hq.
+    constructor; unfold new_ok, joined_ok; simpl; auto; try discriminate.
+    + exists (cs ++ [QChunk i (firstn (ms_chunk s) (x :: r))]), 0. simpl. rewrite app_nil_r, Hq. repeat split; auto.
+      * apply Forall_app. split; auto. constructor; [exact Logic.I | constructor].
+      * intros _. apply alive_full. lia.
+  - (* MTry *)
+    destruct (ms_main s) eqn:M; try discriminate. destruct (ms_resq s) as [|[i0 xs|] q] eqn:Q; try discriminate. injection H as <-.
+    apply absorb_live; auto; try (rewrite M; reflexivity || discriminate). apply (mi_err _ _ _ MI). intros k; rewrite M; discriminate.
+  - (* MEmpty *)
+    destruct (ms_main s) as [| | |i rest| | | |] eqn:M; try discriminate. injection H as <-.
+    assert (Len : length (ms_procs s) = m_workers cfg) by (apply mlive_len; auto; rewrite M; discriminate).
+    apply mlive_set_main; auto; try (intros k; rewrite M; discriminate).
+    + intros k. destruct rest; unfold after_loop; destruct (m_kind cfg); discriminate.
+    + intros k. destruct rest; unfold after_loop; destruct (m_kind cfg); discriminate.
+    + intros n. destruct rest; unfold after_loop; destruct (m_kind cfg); try discriminate. intros E. injection E as <-. exact Ow.
+    + rewrite M. destruct rest; unfold after_loop; simpl; destruct (m_kind cfg) eqn:K; simpl; rewrite ?K; reflexivity.
+    + intros K _. apply (ml_bufw _ _ L K). rewrite M. reflexivity.
+    + unfold joined_ok. destruct rest; unfold after_loop; destruct (m_kind cfg); exact Logic.I.
+  - (* MGet *)
+    destruct (ms_main s) eqn:M; try discriminate. destruct (ms_resq s) as [|[i0 xs|] q] eqn:Q; try discriminate.
+    destruct (ms_finished s <? ms_cnt s); try discriminate. injection H as <-.
+    apply absorb_live; auto; try (rewrite M; reflexivity || discriminate). apply (mi_err _ _ _ MI). intros k; rewrite M; discriminate.
+  - (* MEnd *)
+    destruct (ms_main s) eqn:M; try discriminate. destruct (ms_finished s <? ms_cnt s); try discriminate.
+    assert (Len : length (ms_procs s) = m_workers cfg) by (apply mlive_len; auto; rewrite M; discriminate).
+    destruct (m_kind cfg) eqn:K; injection H as <-.
+    + destruct L as [Ll Ln Lj Lo (cs & m & Hq & Hcs & Hal & Hf) Lr Lb Ld]. rewrite M in *.
+      constructor; unfold new_ok, joined_ok in *; simpl; auto; try discriminate.
+      * exists cs, m. simpl in *. rewrite K in *. auto.
+      * intros K'. congruence.
+    + apply mlive_set_main; auto; try (intros k; rewrite M; discriminate); try discriminate.
+      * intros k E. injection E as <-. lia.
+      * rewrite M. simpl. rewrite K. reflexivity.
+      * intros K'. congruence.
+      * unfold joined_ok. intros j w Hj. lia.
+  - (* MNone *)
+    destruct (ms_main s) as [| | | |n| | |] eqn:M; try discriminate. destruct n as [|n]; try discriminate.
+    destruct (full _ _); try discriminate. injection H as <-.
+    assert (Len : length (ms_procs s) = m_workers cfg) by (apply mlive_len; auto; rewrite M; discriminate).
+    destruct L as [Ll Ln Lj Lo (cs & m & Hq & Hcs & Hal & Hf) Lr Lb Ld]. rewrite M in *. unfold new_ok, joined_ok in *. simpl in Hal.
+    assert (Wq : ms_workq s ++ [QNone] = cs ++ repeat QNone (S m)) by (rewrite Hq, <- app_assoc, repeat_none_snoc; reflexivity).
+    constructor; unfold new_ok, joined_ok; simpl; auto.
+    + destruct n; [destruct (m_kind cfg)|]; exact Ln.
+    + destruct n; [destruct (m_kind cfg)|]; try discriminate. intros k E. injection E as <-. lia.
+    + destruct n; [destruct (m_kind cfg); discriminate|]. intros n0 E. injection E as <-. lia.
+    + exists cs, (S m). rewrite Wq. repeat split; auto. destruct n; [destruct (m_kind cfg) eqn:K; simpl; rewrite ?K|simpl]; lia.
+    + intros K. destruct n; [rewrite K|]; unfold active; rewrite K; discriminate.
+    + destruct n; [destruct (m_kind cfg)|]; try exact Logic.I. intros j w Hj. lia.
+  - (* MJoin *)
+    destruct (ms_main s) as [| | | | | |k|] eqn:M; try discriminate.
+    destruct (nth_error (ms_procs s) k) as [[| | |]|] eqn:N; try discriminate.
+    assert (Len : length (ms_procs s) = m_workers cfg) by (apply mlive_len; auto; rewrite M; discriminate).
+    assert (Jd : forall j w, j < S k -> nth_error (ms_procs s) j = Some w -> w = MWDead).
+    { intros j w Hj Hw. destruct (Nat.eq_dec j k) as [->|Hne]; [congruence|]. pose proof (ml_joined _ _ L) as Ld. rewrite M in Ld. apply (Ld j w); auto. lia. }
+    destruct (S k <? length (ms_procs s)) eqn:Hb.
+    + injection H as <-. apply Nat.ltb_lt in Hb. apply mlive_set_main; auto; try (intros k0; rewrite M; discriminate); try discriminate.
+      * intros k0 E. injection E as <-. exact Hb.
+      * rewrite M. reflexivity.
+      * intros K. unfold active. rewrite K. discriminate.
+    + apply Nat.ltb_ge in Hb.
+      assert (All : forall j w, nth_error (ms_procs s) j = Some w -> w = MWDead).
+      { intros j w Hw. apply (Jd j w); auto. assert (j < length (ms_procs s)) by (apply nth_error_Some; congruence). lia. }
+      destruct (m_kind cfg) eqn:K; injection H as <-.
+      * apply mlive_set_main; auto; try (intros k0; rewrite M; discriminate); try discriminate.
+        -- rewrite M. reflexivity.
+        -- unfold joined_ok. intros _. exact All.
+      * destruct L as [Ll Ln Lj Lo (cs & m & Hq & Hcs & Hal & Hf) Lr Lb Ld]. rewrite M in *. unfold new_ok, joined_ok in *.
+        constructor; unfold new_ok, joined_ok; simpl; auto; try discriminate.
+        -- exists cs, m. simpl in *. rewrite K. auto.
+        -- intros K'. congruence.
+  - (* MWTake *)
+    destruct (nth_error (ms_procs s) k) as [[| | |]|] eqn:N; try discriminate.
+    destruct L as [Ll Ln Lj Lo (cs & m & Hq & Hcs & Hal & Hf) Lr Lb Ld].
+    assert (Ll' : forall w', length (set_nth k w' (ms_procs s)) = m_workers cfg \/ m_kind cfg = false /\ set_nth k w' (ms_procs s) = [] /\ (ms_main s = MmIdle \/ ms_main s = MmDone)).
+    { intros w'. rewrite set_nth_length. destruct Ll as [?|(_ & P & _)]; [left; assumption | rewrite P in N; destruct k; discriminate]. }
+    destruct (ms_workq s) as [|[i0 xs|] q] eqn:Q; try discriminate; injection H as <-.
+    + destruct (chunks_head _ _ _ _ _ (eq_sym Hq)) as (cs' & -> & ->).
+      pose proof (alive_set_nth _ k MWIdle (MWHold i0 xs) N) as Al. unfold alive1 in Al; simpl in Al.
+      constructor; simpl; rewrite ?set_nth_length; auto.
+      * apply new_set_nth with (w := MWIdle); auto; discriminate.
+      * exists cs', m. repeat split; auto; [inversion Hcs; auto | lia |].
+        intros _ j w Hj. apply nth_set_nth_cases in Hj. destruct Hj as [[-> ->]|[Hne Hj]]; [reflexivity|]. apply (Hf ltac:(discriminate) j w Hj).
+      * apply joined_set_nth with (w := MWIdle); auto. left; discriminate.
+    + destruct (nones_head _ _ _ Hcs (eq_sym Hq)) as (-> & m' & -> & ->).
+      pose proof (alive_set_nth _ k MWIdle MWDead N) as Al. unfold alive1 in Al; simpl in Al.
+      constructor; simpl; rewrite ?set_nth_length; auto.
+      * apply new_set_nth with (w := MWIdle); auto; discriminate.
+      * exists [], m'. simpl. repeat split; auto; [lia | contradiction].
+      * apply joined_set_nth with (w := MWIdle); auto.
+  - (* MWRes *)
+    destruct (nth_error (ms_procs s) k) as [[| |i0 xs|]|] eqn:N; try discriminate. injection H as <-.
+    destruct L as [Ll Ln Lj Lo (cs & m & Hq & Hcs & Hal & Hf) Lr Lb Ld].
+    pose proof (alive_set_nth _ k (MWHold i0 xs) MWIdle N) as Al. unfold alive1 in Al; simpl in Al.
+    constructor; simpl; rewrite ?set_nth_length; auto.
+    + destruct Ll as [?|(_ & P & _)]; [left; assumption | rewrite P in N; destruct k; discriminate].
+    + apply new_set_nth with (w := MWHold i0 xs); auto; discriminate.
+    + exists cs, m. repeat split; auto; [lia|].
+      intros Hc j w Hj. apply nth_set_nth_cases in Hj. destruct Hj as [[-> ->]|[Hne Hj]]; [reflexivity|]. apply (Hf Hc j w Hj).
+    + apply Forall_app. split; auto. constructor; [exact Logic.I | constructor].
+    + apply joined_set_nth with (w := MWHold i0 xs); auto. left; discriminate.
 Qed.
